@@ -82,6 +82,8 @@ fixed(['C19'], 'fb8c172', 'SSVectorBase::assign2productShort wrote idx[dim] once
 fixed(['C07', 'C20', 'C03'], '6d45340', 'an exact solve after a floating-point solve worked on the persistently scaled real LP and dropped its scaler: the LP stayed flagged scaled with lp_scaler == nullptr, lhsReal()/getRowVectorReal() dereferenced null (found by the exact-solve operation added to the C07 histories)')
 fixed(['C05'], '6532812', 'unscaled getBasisInverseColReal/RowReal/TimesVecReal lost entries that are below the zero tolerance only in the scaled space (row scale exponent -67: B = I gave B^-1 e_1 = 0)')
 
+fixed(['C13', 'C12'], '0351ab5', 'ratFromString (after 22b70e2) computed 10^exponent exactly for any exponent: a literal like 1e999999999 kept the rational readers busy practically forever (libFuzzer hang in lp-rational / mps-rational); exponents beyond +-100000 are rejected as malformed')
+
 # ------------------------------------------------------------------ open findings
 UND = r'(ABORT_CYCLING|RUNNING|UNKNOWN|ERROR|SINGULAR)'
 # --- simplex core
